@@ -24,7 +24,7 @@ RULE += ' ' + 'In one run in seven every contender first takes an uncontended pr
 RULE += ' ' + 'In a fifth of the runs Lock and BoundedSemaphore releases are made under another thread identity than the acquire.'
 ASSUMPTIONS = ['polling acquire loops (1 ms virtual sleeps) are run with critical sections of at most a few virtual milliseconds',
                'lock keys carry no expiry in this check']
-PROBES = ('contended_acquire', 'nested_rlock', 'bad_release_refused', 'lock_wait', 'barrier_calls', 'with_statement', 'cs_raised', 'barrier_mixed_with_primitive', 'fresh_handles', 'json_disk', 'long_section', 'outer_same_key', 'released_by_another_thread')
+PROBES = ('contended_acquire', 'nested_rlock', 'bad_release_refused', 'lock_wait', 'barrier_calls', 'with_statement', 'cs_raised', 'barrier_mixed_with_primitive', 'fresh_handles', 'json_disk', 'long_section', 'outer_same_key', 'released_by_another_thread', 'leased')
 TECHNIQUE = 'deterministic simulation: seeded schedules of contenders with virtual-time polling; holder-count witness invariant checked at every critical-section entry; bounded-progress check'
 LEVEL_TEXT = ('seeded exploration of contender interleavings at seam granularity (and source lines for shared objects) with a witness '
               'invariant (holders <= 1, <= value for the semaphore, re-entrancy only by the owner) evaluated during the run, plus '
@@ -66,8 +66,23 @@ def gen_case(seed, tier):
         cfg['line_p'] = 0.0
         if kind == 'sem':
             cfg['value'] = 1
+    if rng.random() < 0.06 and kind in ('lock', 'rlock', 'sem'):
+        # primitives built with expire= (a lease, so that a crashed holder does not block for ever): every acquire starts a
+        # lease of its own.  One holder early on, a second one nine seconds later for three seconds, a third contender in between
+        cfg['expire'] = 10
+        cfg['n'], cfg['iters'], cfg['nest'], cfg['forked'], cfg['bad_release'] = 3, 1, 1, False, False
+        n = 3
+        cfg.pop('long_section', None)
+        cfg.pop('oversleep', None)
+        cfg['think'] = [0.0, 9.0, 10.5]
+        cfg['cs_sleeps'] = [1.0, 3.0, 0.5]
+        cfg['clock'] = {'mode': 'frozen'}
+        if kind == 'sem':
+            cfg['value'] = 1
     cfg['outer_same_key'] = rng.random() < 0.15
     cfg['handoff'] = rng.random() < 0.2
+    if cfg.get('expire'):
+        cfg['outer_same_key'] = cfg['handoff'] = False      # (an outer primitive held for the whole run would outlive its own lease)
     cfg['json_disk'] = rng.random() < 0.2      # the primitives keep their state as cache values: any Disk must do
     # 'handles': every acquire and every release goes through a fresh Lock / RLock / BoundedSemaphore object on the same key -
     # the state lives in the cache, the objects are interchangeable handles that may be dropped at any time
@@ -132,18 +147,22 @@ def run_case(case):
             if cfg.get('long_section') and name == 'c0':
                 sim.sleep(cfg['long_section'])
                 probes['long_section'] = 1
-            if cfg['cs_sleep']:
+            if cfg.get('cs_sleeps'):
+                sim.sleep(cfg['cs_sleeps'][int(name[1:]) % len(cfg['cs_sleeps'])])
+                probes['leased'] = 1
+            elif cfg['cs_sleep']:
                 sim.sleep(cfg['cs_sleep'])
             if sim.switches != before:
                 w['cs_switch'] += 1
 
         def make_prim(cache):
+            ekw = {'expire': cfg['expire']} if cfg.get('expire') else {}
             if kind == 'lock':
-                return dc.Lock(cache, 'the-lock')
+                return dc.Lock(cache, 'the-lock', **ekw)
             if kind == 'rlock':
-                return dc.RLock(cache, 'the-lock')
+                return dc.RLock(cache, 'the-lock', **ekw)
             if kind == 'sem':
-                return dc.BoundedSemaphore(cache, 'the-sem', value=cfg['value'])
+                return dc.BoundedSemaphore(cache, 'the-sem', value=cfg['value'], **ekw)
             return None
 
         barrier_fn = {}
